@@ -43,6 +43,7 @@ def run(tier):
     v = Verdict("C13", tier)
     rnd = random.Random(common.seed() + 13)
     tot_nodes = tot_paths = tot_states = 0
+    replayed = 0
     samples = []
     budget = dict(max_nodes=2500, max_seconds=20) if tier == "quick" else dict(max_nodes=30000, max_seconds=200)
     for spec in systems(tier):
@@ -78,6 +79,33 @@ def run(tier):
                                 {"system": text, "mode": mode})
             if res["reached"] != res["nodes"] and not res["diags"]:
                 raise MachineryError(f"{text}: {res['nodes'] - res['reached']} tree nodes not reached without a diagnostic")
+        # specification -> code: TLC generates the schedules of the ensemble machine (component picks, decisions and targets of every member),
+        # System.generator is stepped through each, EnsembleTrace judges what it did
+        behs, rb = E.export_behaviours(spec, timeout=120 if tier == "quick" else 600)
+        if tier == "thorough":
+            deep, _ = E.export_behaviours(spec, timeout=600, simulate=(100, 600), tag="ensmchsim")
+            behs += deep[:200]
+        if not behs:
+            raise MachineryError(f"TLC exported no behaviour of EnsembleMCH for {text}: " + rb.tail(5))
+        cap = 120 if tier == "quick" else 1500
+        if len(behs) > cap:
+            step = len(behs) / cap
+            behs = [behs[int(i * step)] for i in range(cap)]
+        rtree = E.replay_behaviours(sysobj, behs)
+        res = E.validate(spec, rtree, single=False, tag="c13r")
+        if res["error"]:
+            print(res["error"])
+            raise MachineryError(f"TLC failed on the replayed ensemble behaviours of {text}")
+        replayed += len(behs)
+        tot_nodes += res["reached"]
+        tot_states += res["states"]
+        for d in res["diags"]:
+            if attribute(d["failed"]):
+                node = rtree.nodes[d["node"] - 1]
+                v.violation(f"C13:{'+'.join(sorted(x.split(':')[0] for x in d['failed'] if any(x.startswith(y) for y in C13_CLAUSES)))}@{spec.name}:replay",
+                            f"system {text} (behaviour of the specification replayed into System.generator): node {d['node']}: {d['failed']}; model pc={d.get('pc')} "
+                            f"accumulated={d.get('acc')} members={d.get('n')}; event={ {k: node['ev'].get(k) for k in ('kind', 'a', 'p', 'k', 'smiles', 'mass', 'full')} } "
+                            f"observation={node['obs']}", {"system": text, "mode": "replay"})
     # design level: every behaviour of the ensemble machine for the small systems (EnsembleMC)
     mc_states = 0
     mc_runs = []
@@ -122,7 +150,8 @@ def run(tier):
                 except Exception:
                     pass
     v.coverage = {"states": tot_states + mc_states, "transitions": tot_states + mc_states, "model_checking": {"distinct_states": mc_states, "runs": mc_runs,
-                  "properties": ["IStop", "IAccounted", "OnlyCompleteMembers", "AccumulatesMemberMass", "Termination (WF)"]}, "traces_validated_against_impl": tot_paths,
+                  "properties": ["IStop", "IAccounted", "OnlyCompleteMembers", "AccumulatesMemberMass", "Termination (WF)"]}, "traces_validated_against_impl": tot_paths + replayed,
+                  "behaviours_generated_by_TLC_and_replayed_into_System_generator": replayed,
                   "tree_nodes_validated": tot_nodes, "systems": len(systems(tier)), "non_generable_systems_tried": refusals, "samples": samples}
     v.assumptions = ["System.generator is a property whose generator argument cannot be passed normally: the harness calls type(system).generator.fget(system, rng)",
                      "a member is 'an instance of a declared component' iff its recorded generation is a behaviour of that component's generation machine and the yielded molecule equals the machine's result"]
